@@ -36,6 +36,7 @@ type Replay struct {
 	Trace     []string `json:"trace,omitempty"`
 	Race      bool     `json:"race,omitempty"` // needs the race-detector build to reproduce
 	Hang      bool     `json:"hang,omitempty"` // the violation is that the run never finishes
+	Crash     bool     `json:"crash,omitempty"` // the violation is that the process dies (fatal signal) inside sonic
 }
 
 type WorkerResult struct {
@@ -158,7 +159,21 @@ var sonicFrame = regexp.MustCompile(`github\.com/talostrading/sonic(?:/[A-Za-z0-
 
 // run executes one scenario run and, in the race build, turns a detector
 // report that appeared during it into a failure of the run.
+var progressFile *os.File
+
+// noteProgress records which run is about to start, so that the driver can
+// tell which run killed the process if it dies on a fatal signal.
+func noteProgress(sc *scen.Scenario, variant int, seed uint64) {
+	if progressFile == nil {
+		return
+	}
+	var rec [96]byte
+	copy(rec[:], fmt.Sprintf("%s %d %d\n", sc.Name, variant, seed))
+	progressFile.WriteAt(rec[:], 0)
+}
+
 func run(prop string, sc *scen.Scenario, variant int, seed uint64, replay []uint32, trace, thorough bool, known func(string) bool, avoid map[string]bool) scen.Outcome {
+	noteProgress(sc, variant, seed)
 	before := raceErrors()
 	curRunMu.Lock()
 	curRun = runInfo{prop: prop, scenario: sc.Name, variant: variant, seed: seed, thorough: thorough, tape: replay, started: time.Now(), active: true}
@@ -274,6 +289,9 @@ func main() {
 	}
 	res := &WorkerResult{Worker: *worker, Stats: map[string]int{}, ByScenario: map[string]int{}, KnownHits: map[string]int{}}
 	start := time.Now()
+	if *out != "" {
+		progressFile, _ = os.OpenFile(*out+".progress", os.O_CREATE|os.O_RDWR|os.O_TRUNC, 0o644)
+	}
 	onHang = func(ri runInfo, origin, site, stack string) {
 		if len(stack) > 6000 {
 			stack = stack[:6000]
